@@ -7,17 +7,14 @@ ALL15 = ["i", "l", "t", "il", "it", "lt", "ilt", "ic", "lc", "tc", "ilc", "itc",
 def plan(tier, seed):
     D = "metamorphic: accepted with separators => accepted without, same value; separators only in enabled positions; enabled positions never cause rejection; separator-free inputs treated identically"
     if tier == "quick":
-        core = ["t", "i", "l", "iltc"]
-        fl = [H("c13::sep_f64_%s_4" % c, D, "alphabet {+-019._ex}, len<=4") for c in core if c != "iltc"] + [H("c13::sep_f64_iltc_4", D, "len<=4"), H("c13::sep_f64_ilt_4", D, "len<=4")]
-        extra = pick([c for c in ALL15 if c not in core + ["ilt"]], seed, 2)
-        fl += [H("c13::sep_f64_%s_5" % c, D + " (seeded combination)", "len<=5") for c in extra]
+        fl = [H("c13::sep_f64_%s_4" % c, D, "alphabet {+-019._ex}, len<=4") for c in ("t", "i", "l", "iltc")]
         ints = [H("c13::sep_u32_t_5", D + " (integers)", "len<=5"), H("c13::sep_i32_iltc_5", D + " (integers)", "len<=5")]
-        groups = [KGroup("F", fl, timeout=1500, jobs=8, mem_gb=10, stubbing=True, label="floats"), KGroup("F", ints, timeout=900, jobs=4, mem_gb=8, label="integers")]
+        groups = [KGroup("F", fl, timeout=800, jobs=4, mem_gb=14, stubbing=True, label="floats"), KGroup("F", ints, timeout=800, jobs=2, mem_gb=14, label="integers")]
     else:
         fl = [H("c13::sep_f64_%s_5" % c, D, "len<=5") for c in ALL15]
         fl += [H("c13::sep_f64_%s_6" % c, D, "len<=6") for c in ("iltc", "i", "t", "l")] + [H("c13::sep_f32_iltc_4", D, "len<=4")]
         ints = [H("c13::sep_%s" % n, D + " (integers)", "len<=5") for n in ("u32_i_5", "u32_l_5", "u32_t_5", "i32_iltc_5", "u8_ilt_5", "i64_itc_5", "u64_lc_5")]
-        groups = [KGroup("F", fl, timeout=7200, jobs=12, mem_gb=12, stubbing=True, label="floats"), KGroup("F", ints, timeout=7200, jobs=7, mem_gb=10, label="integers")]
+        groups = [KGroup("F", fl, timeout=7200, jobs=12, mem_gb=12, stubbing=True, label="floats"), KGroup("F", ints, timeout=7200, jobs=7, mem_gb=14, label="integers")]
     return {
         "kani": groups,
         "functions_encoded": ["lexical_util::skip (all peek_* variants selected by the format)", "lexical_parse_float::parse::parse_number", "lexical_parse_integer::algorithm"],
